@@ -2684,6 +2684,7 @@ func (s *Server) serveConnCounted(c net.Conn, countConcurrency bool) error {
 		ctx.connRequestNum = connRequestNum
 		ctx.time = time.Now()
 
+		ctx.Request.bodyStreamLeftover = false
 		// If a client denies a request the handler should not be called
 		if continueReadingRequest {
 			vhook("srv.h.start", ctx, c, int(connRequestNum), 0)
@@ -2698,6 +2699,10 @@ func (s *Server) serveConnCounted(c net.Conn, countConcurrency bool) error {
 			if _, err := io.CopyN(io.Discard, rs, maxUnreadRequestBodySize); err != io.EOF {
 				connectionClose = true
 			}
+		}
+		if ctx.Request.bodyStreamLeftover {
+			// The handler dropped the stream itself: nothing is left to drain through.
+			connectionClose = true
 		}
 
 		timeoutResponse = ctx.timeoutResponse
